@@ -17,8 +17,9 @@ import (
 //
 // Cross.Junk = m > 0: client cl sends one such item from its own socket / connection right before its
 // q-th request when (cl+q) mod m == 0; Cross.JunkKinds (cyclic by cl*5+q) says what: 0..11 = that
-// many octets, junkResponse = a copy of the request that follows with the QR bit set (the default
-// accept rule ignores it; the TSIG rounds accept everything, there it becomes 11 octets).
+// many octets, junkResponse = header and question of the request that follows with the QR bit set - a
+// short well-formed message (the default accept rule ignores it; the TSIG rounds accept everything,
+// there it becomes 11 octets).
 //
 // The oracle is the round's usual one (every token handled exactly once, own reply, facts), plus one
 // observation point the server offers: Server.MsgInvalidFunc is told every message the server refuses
@@ -59,11 +60,19 @@ func (s *crossState) sendJunk(w interface{ Write([]byte) (int, error) }, cl, q i
 	kind := s.c.junkKind(cl, q)
 	var item []byte
 	if kind == junkResponse {
-		if len(packed) < 12 {
+		// header and question of the request, QR set, no other section: a well-formed message that is
+		// much shorter than the requests around it
+		end := 12
+		for end < len(packed) && packed[end] != 0 {
+			end += 1 + int(packed[end])
+		}
+		end += 5 // the root label, type and class
+		if len(packed) < 12 || end > len(packed) {
 			return nil
 		}
-		item = append([]byte(nil), packed...)
+		item = append([]byte(nil), packed[:end]...)
 		item[2] |= 0x80 // QR: "this is a response"
+		copy(item[6:12], []byte{0, 0, 0, 0, 0, 0})
 		s.junkIgnored.Add(1)
 	} else {
 		item = shortItem(kind)
